@@ -122,7 +122,22 @@ fn swap_case(rng: &mut Rng) {
             std::thread::spawn(move || (x, a.swap(3, x, Ordering::Relaxed)))
         })
         .collect();
+    // half of the time a further thread writes the two neighbouring bits (it owns them)
+    let nb = if rng.below(2) == 1 {
+        let (x, y) = (rng.below(2) == 1, rng.below(2) == 1);
+        let a2 = a.clone();
+        Some((x, y, std::thread::spawn(move || {
+            a2.set(4, x, Ordering::Relaxed);
+            a2.set(2, y, Ordering::Relaxed);
+        })))
+    } else {
+        None
+    };
     let calls: Vec<(bool, bool)> = hs.into_iter().map(|h| h.join().unwrap()).collect();
+    if let Some((x, y, h)) = nb {
+        h.join().unwrap();
+        assert!(a.get(4, Ordering::Relaxed) == x && a.get(2, Ordering::Relaxed) == y, "C13 swap: neighbouring bits written by their only writer hold other values");
+    }
     let fin = a.get(3, Ordering::Relaxed);
     assert!(linearizable(init, &calls, fin), "C13 swap: initial {init}, calls (value, returned) {calls:?}, final {fin} not producible by any sequential order");
 }
